@@ -32,7 +32,9 @@ Proof. exact externpy_buffer_safe. Qed.
 Print Assumptions C14_externpy_buffer_safe.
 
 (* the unrestricted statement is false: a last `double _Complex` argument is stored 8 bytes past the end of `a`,
-   and a non-last one overlaps the next argument's slot *)
+   and a non-last one overlaps the next argument's slot.  This is the OPEN finding `double_complex_arg`
+   (findings/C14.json; replayed on the implementation on every run, ASan stack-buffer-overflow for the last-argument
+   case; not repaired because it needs a protocol change between generated modules and the backend) *)
 Theorem C14_externpy_args_refuted :
   exists args res i a, Forall wf_xtype args /\ wf_xtype res /\ nth_error args i = Some a /\
     size_of_a (Z.of_nat (length args)) res < slot_offset (Z.of_nat i) + store_bytes a.
@@ -44,6 +46,26 @@ Theorem C14_externpy_args_overlap_refuted :
     slot_offset (Z.of_nat (S i)) < slot_offset (Z.of_nat i) + store_bytes a /\ (S i < length args)%nat.
 Proof. exact externpy_args_overlap_refuted. Qed.
 Print Assumptions C14_externpy_args_overlap_refuted.
+
+(* "passes exactly its argument values", extern "Python", at the level of bytes: after the wrapper has stored every
+   argument (object representation, or address for by-reference arguments; each at most one 8-byte slot, which
+   C14_externpy_buffer_safe guarantees when no argument is double _Complex), the backend's read of argument i at
+   backend_slot i returns exactly the bytes stored for argument i — later stores do not disturb earlier slots.
+   NOT covered by a theorem: the value-level conversion bytes -> Python object (convert_to_object; modelled for
+   primitives as C13.Model.ffi_result and tied by C13's correspondence), and the argument delivery of ffi.callback(),
+   which is libffi's (cffi only dereferences the pointers libffi hands it); both are checked on the implementation
+   by the correspondence (the Python function must receive exactly the constants the C caller passed). *)
+Theorem C14_externpy_args_exact : forall args m k i bs,
+  Forall (fun b => Z.of_nat (length b) <= 8) args ->
+  nth_error args i = Some bs ->
+  bread (wrapper_stores m k args) (backend_slot (Z.of_nat (k + i))) (length bs) = bs.
+Proof. exact externpy_args_exact. Qed.
+Print Assumptions C14_externpy_args_exact.
+
+(* "receives exactly the converted Python return value": the theorems below are about the bytes written into the
+   result area.  Integer-like results (integers, _Bool, characters, pointers) are modelled from the value (RetInt);
+   float, long double, complex and struct results enter as the bytes the object converts to (RetBytes, produced by
+   the harness oracle) — their object -> bytes conversion is not modelled here. *)
 
 (* widening (ffi.callback, libffi convention): a result smaller than an ffi_arg fills the whole ffi_arg with its
    sign extension (signed) or zero extension (unsigned, _Bool, characters); the low bytes are the value itself *)
